@@ -308,10 +308,22 @@ def run_loop(case, build_dir: Path, guard_s=60):
         # ---- one or several calls on the same population / memory / environment ("resume": the population a call
         #      returned is handed to the next call with another budget)
         budgets = list(case.get("budgets") or [case["max_steps"]])
+        calls = [(b, None) for b in budgets]
+        if case.get("second"):      # the SAME tournament / mutation objects, memory and environment, but ANOTHER population
+            calls.append((case["second"]["budget"], case["second"]["indices"]))     # (e.g. one that evolved elsewhere)
         segments = []
         cur_pop = pop
-        for bi, budget in enumerate(budgets):
-            seg = {"completed": False, "error": None, "max_steps": int(budget), "call": bi,
+        for bi, (budget, new_indices) in enumerate(calls):
+            if new_indices is not None:
+                _, cur_pop, _, _ = build(dict(case, pop=len(new_indices), perm=None, preset=None), [], ckdir)
+                for a, i in zip(cur_pop, new_indices):
+                    a.index = int(i)
+                ps = case["second"].get("preset")
+                if ps:      # it comes with history: counters at s, k earlier generations, one clearly best individual
+                    for a in cur_pop:
+                        a.steps = [int(ps["steps"])] * (int(ps["nfit"]) + 1)
+                        a.fitness = [100.0 if int(a.index) == int(ps["best"]) else 0.0] * int(ps["nfit"])
+            seg = {"completed": False, "error": None, "max_steps": int(budget), "call": bi, "fresh_pop": new_indices is not None,
                    "start": [{"index": int(a.index), "steps": [int(x) for x in a.steps],
                               "fitness": [float(np.mean(f)) for f in a.fitness]} for a in cur_pop],
                    "mem_start": int(getattr(memory, "counter", 0)) if memory is not None else 0,
